@@ -109,7 +109,8 @@ def run (args : List String) : String :=
     | some d => d
     | none =>
       let ext : Bytes → Bytes := fun _ => lower.getD []
-      let mh : Option Obs := match p with | some (j, _) => model variant ext j | none => none
+      -- HTTP path = one JSON document since fix 896fd71 (F5): only whitespace may follow the value
+      let mh : Option Obs := match p with | some (j, rest) => if onlyWs rest then model variant ext j else none | none => none
       let ms : Option Obs := match p with | some (j, rest) => if onlyWs rest then model variant ext j else none | none => none
       if mh != h then diff "http" (showObs mh) (showObs h)
       else if ms != s then diff "slice" (showObs ms) (showObs s)
